@@ -2242,8 +2242,8 @@ class Context:
             source = contract.sidecar.source
             package = ''
 
-            def lookup(self, repo, name, _depth=0):
-                return None
+            def lookup(self_, repo, name, _depth=0):
+                return self.find_class_by_name(name)        # a scenario names repository classes directly
         node = ast.FunctionDef(name=contract.node.name, args=contract.node.args, body=list(contract.body) or [ast.Pass()],
                                decorator_list=[], returns=None)
         ast.copy_location(node, contract.node)
